@@ -81,9 +81,39 @@ func main() {
 			keys = append(keys, k)
 		}
 		sort.Strings(keys)
+		if len(os.Args) > 3 && os.Args[3] == "names" {
+			db, err := scanNames(repo, "tars", nil)
+			if err != nil {
+				fmt.Fprintln(os.Stderr, err)
+				os.Exit(2)
+			}
+			b, _ := json.Marshal(db)
+			fmt.Println(strings.ReplaceAll(string(b), "},{", "},\n{"))
+			return
+		}
 		fmt.Println("# functions declared in the pinned tree: dir|receiver|name <tab> number of function literals in the body; anything else is new, see inline.go")
 		for _, k := range keys {
 			fmt.Printf("%s\t%d\n", k, lits[k])
+		}
+	case "names-plan":
+		// debugging aid: what the name normalisation would do on a tree
+		pl := computeRenamePlan(os.Args[2])
+		if pl == nil {
+			fmt.Println("nothing to normalise")
+			return
+		}
+		for _, n := range pl.notes {
+			fmt.Println(n)
+		}
+		ov, notes := buildNameOverlay(os.Args[2], os.Args[2], pl, "./tars/...")
+		for _, n := range notes {
+			fmt.Println("NOTE:", n)
+		}
+		for f := range ov {
+			fmt.Println("rewritten:", f)
+			if len(os.Args) > 3 {
+				fmt.Println(string(ov[f]))
+			}
 		}
 	case "list":
 		sort.SliceStable(allRules, func(i, j int) bool { return allRules[i].ID < allRules[j].ID })
